@@ -3,5 +3,7 @@
 EXTENDS Bytes
 
 RawSigsFile(F, cfg, v, a) == {}
+RawSigsSegment(S, cfg, q) == {}
+RawSigsInit(F, cfg) == {}
 
 =============================================================================
